@@ -154,6 +154,10 @@ class MemoryStore(Store):
 
 class LocalFileStore(Store):
     def __init__(self, internal_dir: str, data_dir: str, create_dirs: bool = True):
+        # The directories are resolved once: the store must keep pointing to the same locations if the
+        # working directory changes, and the links in the data directory must not be relative to it.
+        internal_dir = os.path.abspath(internal_dir)
+        data_dir = os.path.abspath(data_dir)
         self._root = internal_dir
         self._data_root = data_dir
         if not os.path.isdir(internal_dir):
